@@ -7,7 +7,11 @@ Implementation driven (real code from $VERIF_REPO/src):
   get_pixels_by_source_frame, iter_segments, pydicom's pixel_array of the
   written file; plus pydicom pack_bits/unpack_bits, hd.frame.decode_frame,
   Image.get_raw_frame and ImageFileReader.read_frame_raw on hand-made
-  bit-packed images.
+  bit-packed images.  Input arrays are handed over in every numpy memory
+  layout (kind rt_layout); kind rt_hist runs a schedule of calls (stacked read,
+  combine_segments=True read, .pixel_array, get_stored_frame by number / index,
+  get_stored_frames) on each of the three objects, so that every entry point
+  is observed with a cold and with a warm decoded-array cache.
 Model: coq/theories/C01_Model.v; theorems: C01_Props.v.
 """
 import io
@@ -38,8 +42,12 @@ MODELLED = ('Segmentation.__init__ pixel path (_check_segment_numbers, bit depth
             'remainder_pixels carry, per-frame (segment, source) record, PixelData assembly), '
             'get_pixels_by_source_instance/_frame -> _iterate_indices_for_stack -> _get_pixels_by_seg_frame -> '
             '_get_pixels_by_frame, Image.get_raw_frame, frame.decode_frame (1-bit offset), io.ImageFileReader '
-            'offset table + read_frame_raw length; pydicom pack_bits/unpack_bits re-modelled. Not modelled: '
-            'geometry (plane sorting, taken as input), dataset attribute copying, codecs, file I/O.')
+            'offset table + read_frame_raw length; pydicom pack_bits/unpack_bits re-modelled; the decoded-array '
+            'cache (Image.pixel_array / _pixel_array: whole PixelData decoded at once, then indexed by '
+            'get_stored_frame / get_stored_frames / _get_pixels_by_frame) and the combine_segments=True branch of '
+            '_get_pixels_by_seg_frame (binary check, overlap check, label assembly). Not modelled: '
+            'geometry (plane sorting, taken as input), dataset attribute copying, codecs, file I/O, the memory '
+            'layout of the input numpy array (the model sees values only; layouts are exercised, kind rt_layout).')
 STRATA = ['rt', 'rt_mf', 'rt_nofor', 'rt_encaps', 'rescale', 'malformed', 'odd', 'pack', 'frame_at', 'rhe',
           'rt_layout', 'rt_hist']
 RULE = ('rt*: rows x cols with every residue of rows*cols mod 8 incl. < 8 pixels, 1..5 planes x 1..4 segments, '
@@ -298,7 +306,8 @@ def _malformed(rng):
         c['layout'], c['dtype'], c['den'], c['two_d'] = 'stack', 'uint8', 1, False
         c['data'] = [[[0] * k for _ in range(n)] for _ in range(P)]
     elif which == 'dtype':
-        c['dtype'] = rng.choice(['int64', 'int32', 'int16', 'int8', 'uint32'])
+        # signed / wide integers, and arrays in non-native (big-endian) byte order: refused loudly
+        c['dtype'] = rng.choice(['int64', 'int32', 'int16', 'int8', 'uint32', '>u2', '>f4', '>f8'])
         c['den'] = 1
         S = len(c['segs'])
         if c['layout'] == 'label':
